@@ -3,41 +3,54 @@ import json, os, subprocess, time
 import verif
 
 
-def build_restic(ctx):
-    """The restic binary of the working tree under test (the error -> exit status switch is inline in main())."""
+def start_build(ctx):
+    """Start building the restic binary of the working tree under test (the error -> exit status switch is inline
+    in main()); runs while TLC enumerates the scripts."""
     out = os.path.join(ctx.work, "restic-bin")
     e = dict(os.environ)
     e.update(verif.GOENV)
-    t = time.time()
+    pr = subprocess.Popen(["go", "build", "-o", out, "./cmd/restic"], cwd=verif.REPO, env=e, stdout=subprocess.PIPE,
+                          stderr=subprocess.STDOUT, text=True, errors="replace")
+    return pr, out, time.time()
+
+
+def finish_build(build):
+    pr, out, t = build
     try:
-        pr = subprocess.run(["go", "build", "-o", out, "./cmd/restic"], cwd=verif.REPO, env=e, stdout=subprocess.PIPE,
-                            stderr=subprocess.STDOUT, timeout=1500, text=True, errors="replace")
+        stdout, _ = pr.communicate(timeout=1500)
     except subprocess.TimeoutExpired:
+        pr.kill()
         raise verif.MachineryError("go build ./cmd/restic timed out")
     verif.log("[go build cmd/restic] rc=%d %.1fs" % (pr.returncode, time.time() - t))
     if pr.returncode != 0 or not os.path.exists(out):
-        raise verif.MachineryError("go build ./cmd/restic failed:\n" + pr.stdout[-2000:])
+        raise verif.MachineryError("go build ./cmd/restic failed:\n" + (stdout or "")[-2000:])
     return out
 
 
 def run(ctx):
-    gen = ctx.tlc("Fn_BackupStatusGen", cfg="Fn_BackupStatusGen.cfg", workers=1, name="gen", timeout=600, deadlock=False)
+    build = start_build(ctx)
+    try:
+        gen = ctx.tlc("Fn_BackupStatusGen", cfg="Fn_BackupStatusGen.cfg", workers=1, name="gen", timeout=600, deadlock=False)
+    except BaseException:
+        build[0].kill()
+        raise
     vec = os.path.join(gen["dir"], "vec.ndjson")
     if not os.path.exists(vec):
+        build[0].kill()
         raise verif.MachineryError("TLC wrote no vec.ndjson in %s" % gen["dir"])
     nscripts = sum(1 for _ in open(vec))
-    binary = build_restic(ctx)
-    out = ctx.go_test("cmd/restic", "^TestVerif_C55$", timeout=2400, env={"VERIF_VECTORS": vec, "VERIF_RESTIC_BIN": binary})
+    binary = finish_build(build)
+    out = ctx.go_test("cmd/restic", "^TestVerif_C55$", timeout=3000, env={"VERIF_VECTORS": vec, "VERIF_RESTIC_BIN": binary})
     n, bad, lines = ctx.check_records("Fn_BackupStatus", os.path.join(out, "recs.ndjson"))
     for i in bad[:200]:
         r = json.loads(lines[i - 1])
-        mode = "binary" if r["mode"] == "binary" else "inproc"
+        mode = {"binary": "binary", "inproc-skip": "inproc-skip-if-unchanged"}.get(r["mode"], "inproc")
         what = "status%d" % r["status"]
-        if not r["saved"]:
+        if not r["saved"] and not r.get("skipped"):
             what = "no-snapshot"
         key = "backup-status/%s/%s/%s" % (mode, r["key"] or "no-fault", what)
-        ctx.violate(key, "backup run (%s, script %d): delivered faults [%s] -> status %d, snapshot saved=%s, items in snapshot %s, extra paths %d, content_ok=%s; err=%s %s (Fn_BackupStatus!RecOK false)"
-                    % (r["mode"], r["script"], r["key"], r["status"], r["saved"], r["insnap"], r["extra"], r["content_ok"], r["err"][-160:], r["detail"]), r)
+        ctx.violate(key, "backup run (%s, script %d): delivered faults [%s] -> status %d, snapshot saved=%s skipped=%s, items in snapshot %s, extra paths %d, content_ok=%s; err=%s %s (Fn_BackupStatus!RecOK false)"
+                    % (r["mode"], r["script"], r["key"], r["status"], r["saved"], r.get("skipped"), r["insnap"], r["extra"], r["content_ok"], r["err"][-160:], r["detail"]), r)
     res = ctx.go_results[-1]
     cnt = res.get("counters", {})
     if cnt.get("runs_binary", 0) < 3:
@@ -48,10 +61,13 @@ def run(ctx):
     cov = {"evaluations": n, "distinct_nontrivial": res["distinct_nontrivial"], "rule": res["rule"], "samples": samples,
            "scripts_enumerated_by_tlc": nscripts, "records_checked_by_tlc": n, "records_rejected": len(bad),
            "counters": cnt, "exhaustive": False,
-           "selection": "quick: seeded 1/40 of the table; thorough: all clean scripts, seeded 1/2 of the single-fault and 1/8 of the pair scripts (different seeds cover different parts)"}
+           "selection": "quick: per (item kind, fault class) of the alphabet one single-fault script with the fault below the target directory and one with the fault on a second command-line target (seeded choice of shape/position, one of the two with a 1.3 MB file), 3 clean and 20 pair scripts; a quarter of the scripts additionally on top of a parent snapshot, a quarter additionally with --skip-if-unchanged on top of a parent taken under the same faults; thorough: all clean scripts, seeded 1/2 of the single-fault and 1/8 of the pair scripts (different seeds cover different parts)"}
     return verif.finish(ctx, "fault_enumeration", cov, [
         "faults are injected by a wrapping fs.FS behind the existing backupFSTestHook (in-process) and by permission bits / missing targets for an unprivileged run of the binary built from the tree",
         "a fault counts only when the file system really returned it to restic (delivered); items below a faulted directory are never reached",
+        "read faults by call number: the k-th Read call (k = 1..3) on the open file answers EIO once or persistently while the wrapper serves the file whole or in short pieces (64 bytes per Read for small files, 64 KiB for the 1.3 MB file); every Read call that answered EIO is a delivered fault",
+        "type changes on the real file system: the wrapper exchanges the item (symlink to a readable item of the old kind outside the source tree, dangling symlink, file<->directory) inside MakeReadable, i.e. after restic listed and lstat()ed it and before it reopens it for reading; such an item was not read as listed and must be reported",
+        "--skip-if-unchanged runs that create no snapshot are judged by status and by the contents of the parent snapshot (which the run declared identical)",
         "ENOENT when opening a file for reading after a successful lstat (vanish_late) is accepted with status 0 or 3: the statement does not classify it",
         "in-process status = the switch of main() applied to the error returned by runBackup (identity comparison with ErrInvalidSourceData); the real exit status is observed on the binary subset",
         "the first target directory itself is never faulted (a backup without any readable item saves no snapshot and is outside the statement)"])
